@@ -1,5 +1,6 @@
 import Zc.Model.Link
 import Zc.Model.Goodbye
+import Zc.Gen.Link
 /-! # From a host model to the link: the projection of runs of `Zc.Goodbye.Host` (C08/C09's block machine: registry,
 outgoing queues, broadcast tasks, close sequence) to the link events of `Zc.Model.Link`
 
@@ -12,7 +13,9 @@ A *timed run* is a list of `Step`s: consecutive enabled blocks from a start stat
   `async_register_service`; the link trace dates `reg` at the call); a step after which it no longer holds one yields `unreg`
   at that instant (that is how the harness logs `unregister` and `close`);
 * every datagram emitted yields a `send` whose items are the well-formed PTR records it carries (type PTR, class IN) with
-  their TTLs — exactly what `harness/c07.py:abstract` extracts.
+  their TTLs — what `harness/c07.py:abstract` extracts, except that `abstract` sets `full` only when an address record of the SRV
+  *target* is present and `fullFor` accepts any address record (unchecked correspondence) — and whose destination is the block's route (`dstOf`: the
+  multicast group for everything but the query handler's immediate answer, by the generated leaves of `Zc.Gen.Link`).
 
 Names are mapped to link identities by a `Naming` (host number, numbering of lower-cased type and instance names).
 No Mathlib. -/
@@ -30,6 +33,9 @@ structure Step where
   pre : Host
   post : Host
   out : List Pkt
+  /-- where the query handler sends what an `answer` block emits (multicast `none`, or the host of the unicast destination) — an
+  input of the step, like the records of that block; ignored for every other block (`dstOf`) -/
+  adst : Option Nat := none
 
 /-- the instant a block carries, if any -/
 def blockTime : Block → Option Int
@@ -44,24 +50,52 @@ def blockTime : Block → Option Int
   | .allStep due => some due
   | .close => none
 
+/-- a call `async_send(out)` that passes the packet alone has no address (`addr=None`), and `async_send_with_transport` sends a
+datagram without address to the mDNS group: generated leaves -/
+def mcastCall (nargs : Nat) : Bool :=
+  decide (nargs = 1) && Gen.Link.send_addr_default_none && Gen.Link.send_to_group true
+
+/-- **the route of what a block emits.**  Broadcast tasks (`_async_broadcast_service`: announcements and goodbyes), the close
+sequence (`async_unregister_all_services`) and the timer callbacks of the two outgoing queues (`async_ready`) call
+`async_send(out)` with the packet alone, i.e. send to the multicast group; only the query handler's immediate answer (`answer`) can
+be a unicast, and its destination `adst` is an input of the step.  The other blocks emit nothing. -/
+def dstOf (b : Block) (adst : Option Nat) : Option Nat :=
+  match b with
+  | .answer _ => adst
+  | .task _ _ _ _ => if mcastCall Gen.Link.broadcast_send_nargs then none else adst
+  | .unregisterAll _ => if mcastCall Gen.Link.unregister_all_send_nargs then none else adst
+  | .allStep _ => if mcastCall Gen.Link.unregister_all_send_nargs then none else adst
+  | .ready _ _ => if mcastCall Gen.Link.queue_ready_send_nargs then none else adst
+  | _ => adst
+
 section
 variable (lower : String → String) (N : Naming)
 
 /-- a timed run from state `h`, not earlier than `T` -/
 inductive IsRun : Host → Int → List Step → Prop where
   | nil (h : Host) (T : Int) : IsRun h T []
-  | cons (h h' : Host) (T t : Int) (b : Block) (out : List Pkt) (rest : List Step) :
+  | cons (h h' : Host) (T t : Int) (b : Block) (out : List Pkt) (ad : Option Nat) (rest : List Step) :
       h.step lower b = some (h', out) → T ≤ t → (∀ bt, blockTime b = some bt → bt = t) → IsRun h' t rest →
-      IsRun h T (⟨t, b, h, h', out⟩ :: rest)
+      IsRun h T (⟨t, b, h, h', out, ad⟩ :: rest)
 
-/-- executable construction of a timed run from a schedule of (instant, block) -/
+/-- executable construction of a timed run from a schedule of (instant, block); immediate answers, if any, are multicast -/
 def mkRun : Host → Int → List (Int × Block) → Option (List Step)
   | _, _, [] => some []
   | h, T, (t, b) :: rest =>
     if T ≤ t ∧ (blockTime b = none ∨ blockTime b = some t) then
       match h.step lower b with
       | none => none
-      | some (h', out) => (mkRun h' t rest).map (fun l => ⟨t, b, h, h', out⟩ :: l)
+      | some (h', out) => (mkRun h' t rest).map (fun l => ⟨t, b, h, h', out, none⟩ :: l)
+    else none
+
+/-- … with the destination of every immediate answer given -/
+def mkRunD : Host → Int → List (Int × Block × Option Nat) → Option (List Step)
+  | _, _, [] => some []
+  | h, T, (t, b, ad) :: rest =>
+    if T ≤ t ∧ (blockTime b = none ∨ blockTime b = some t) then
+      match h.step lower b with
+      | none => none
+      | some (h', out) => (mkRunD h' t rest).map (fun l => ⟨t, b, h, h', out, ad⟩ :: l)
     else none
 
 /-- the link identity of a service of this host -/
@@ -102,7 +136,7 @@ def stepEvents (st : Step) : Link.Trace :=
   (adds lower N st).map (fun s => ⟨st.t - 350, .reg s⟩)
   ++ (removes lower N st).map (fun s => ⟨st.t, .unreg s⟩)
   ++ (updSvcs lower N st).map (fun s => ⟨st.t, .upd s⟩)
-  ++ st.out.map (fun p => ⟨st.t, .send N.host 0 none (itemsOf lower N p)⟩)
+  ++ st.out.map (fun p => ⟨st.t, .send N.host 0 (dstOf st.b st.adst) (itemsOf lower N p)⟩)
 
 /-- the link trace of a run (not sorted: `reg` is dated back; the contracts K1, K2, K6 do not depend on the order) -/
 def events (l : List Step) : Link.Trace := l.flatMap (stepEvents lower N)
